@@ -81,15 +81,16 @@ def gen_dist(rng, n, tier):
     for k in range(n):
         g = gen_graph(rng, small=(k % 3 == 0))
         used = sorted({e[1] for e in g} | {e[2] for e in g})
-        cases.append({'edges': g, 'src': rng.choice(used)})
+        cases.append({'edges': g, 'src': rng.choice(used), 'shared': rng.random() < 0.3})
     return cases
 
 
 def run_dist(case):
     net = build_net(case['edges'])
     res = {}
+    reg = {} if case.get('shared') else None      # the optional output dictionary, reused across successive calls as the API allows
     for t in sorted(net.NODES):
-        res[str(t)] = net.shortest_distance(case['src'], t)
+        res[str(t)] = net.shortest_distance(case['src'], t, output_dict=reg) if reg is not None else net.shortest_distance(case['src'], t)
     # untargeted form: list over all nodes (1e300 for unreachable)
     lst = net.shortest_distance(case['src'])
     return {'to': res, 'all': dict(zip([str(k) for k in net.NODES], lst))}
@@ -234,4 +235,86 @@ Definition ok (c : graph * Q * list nat * list (nat * nat * Q)) : bool :=
     klass=lambda c, o: 'cut=%s' % ('inf' if c['cut'] >= 1e300 else 'finite'),
     nontrivial=lambda c, o: 'table' in o and any(s != t for s, t, _ in o['table']))
 
-STREAMS = [S_DIST, S_TABLE]
+# ------------------------------------------------------------------ stream 3: the priority queue of the search, on its own
+
+def gen_pq(rng, n, tier):
+    out = []
+    for _ in range(n):
+        nk = rng.randint(2, 8)
+        ppop = rng.choice([0.15, 0.3, 0.45])
+        ops = []
+        for _ in range(rng.randint(5, 60)):
+            if rng.random() < ppop:
+                ops.append(['pop'])                     # on an empty queue the runner records -1 and goes on
+            else:
+                ops.append(['set', rng.randrange(nk), rng.choice([0, 1, 2, 3, 5, 8, rng.randint(0, 9)])])
+        out.append({'ops': ops})
+    return out
+
+
+def run_pq(case):
+    from tracklib.core.utils import priority_dict
+    pq = priority_dict()
+    pops = []
+    for op in case['ops']:
+        if op[0] == 'set':
+            pq[op[1]] = op[2]
+        else:
+            pops.append(int(pq.pop_smallest()) if len(pq) else -1)
+    rest = []
+    while len(pq):
+        rest.append(int(pq.pop_smallest()))
+    return {'pops': pops, 'rest': rest}
+
+
+def coq_pq(case, obs):
+    if 'exc' in obs:
+        return None
+    ops = coq_list('(Some (%d%%nat, %d%%Z))' % (op[1], op[2]) if op[0] == 'set' else 'None' for op in case['ops'])
+    return '(%s, %s, %s)' % (ops, coq_list('(%d)%%Z' % p for p in obs['pops']), coq_list('(%d)%%Z' % p for p in obs['rest']))
+
+
+def oracle_pq(case, obs):
+    if 'exc' in obs:
+        return 'priority_dict raised %s' % obs['exc']
+    d = {}; pops = []
+    def pop():
+        k = min(d, key=lambda k: (d[k], k)); del d[k]; return k
+    for op in case['ops']:
+        if op[0] == 'set':
+            d[op[1]] = op[2]
+        else:
+            pops.append(pop() if d else -1)
+    rest = []
+    while d:
+        rest.append(pop())
+    if pops != obs['pops'] or rest != obs['rest']:
+        return 'priority_dict popped %r then %r; the keys of least (priority, key) are %r then %r (operations %r)' % (obs['pops'], obs['rest'], pops, rest, case['ops'])
+    return None
+
+
+PQ_CHECK = '''Fixpoint pdel (d : list (nat * Z)) (k : nat) : list (nat * Z) := match d with [] => [] | (k', v) :: r => if Nat.eqb k' k then pdel r k else (k', v) :: pdel r k end.
+Definition ple (a b : nat * Z) : bool := if Z.ltb (snd a) (snd b) then true else if Z.ltb (snd b) (snd a) then false else Nat.leb (fst a) (fst b).
+Fixpoint pmin (d : list (nat * Z)) (best : nat * Z) : nat * Z := match d with [] => best | e :: r => pmin r (if ple e best then e else best) end.
+Definition ppop (d : list (nat * Z)) : option (nat * list (nat * Z)) := match d with [] => None | e :: r => let m := pmin r e in Some (fst m, pdel d (fst m)) end.
+Fixpoint prun (ops : list (option (nat * Z))) (d : list (nat * Z)) (acc : list Z) : list Z * list (nat * Z) :=
+  match ops with
+  | [] => (rev acc, d)
+  | Some (k, v) :: r => prun r ((k, v) :: pdel d k) acc
+  | None :: r => match ppop d with Some (k, d') => prun r d' (Z.of_nat k :: acc) | None => prun r d ((-1)%Z :: acc) end
+  end.
+Fixpoint pdrain (fuel : nat) (d : list (nat * Z)) : list Z := match fuel with O => [] | S f => match ppop d with Some (k, d') => Z.of_nat k :: pdrain f d' | None => [] end end.
+Definition zeqb (a b : list Z) : bool := if list_eq_dec Z.eq_dec a b then true else false.
+Definition ok (c : list (option (nat * Z)) * list Z * list Z) : bool :=
+  let '(ops, pops, rest) := c in let '(p, d) := prun ops [] [] in zeqb p pops && zeqb (pdrain (S (List.length d)) d) rest.'''
+
+S_PQ = Stream(
+    name='queue', budget={'quick': 400, 'thorough': 10000},
+    rule=('utils.priority_dict on its own (the queue of run_routing_forward and of fast DTW): 5..60 operations over 2..8 integer keys - insertions, many re-prioritisations of live keys up and down with '
+          'ties (so that the lazy heap reaches twice the number of live keys and is rebuilt), pops interleaved, then drained; compared with "pop the key of least (priority, key)"'),
+    imports='From Coq Require Import List ZArith Bool Arith.\nImport ListNotations.',
+    case_type='list (option (nat * Z)) * list Z * list Z', check_def=PQ_CHECK,
+    generate=gen_pq, run_impl=run_pq, coq_case=coq_pq, oracle=oracle_pq,
+    nontrivial=lambda c, o: len(c['ops']) >= 10, klass=lambda c, o: 'ops<%d' % (10 * (1 + len(c['ops']) // 10)))
+
+STREAMS = [S_DIST, S_TABLE, S_PQ]
